@@ -340,8 +340,13 @@ void NTT_Goldilocks::extendPol(Goldilocks::Element *output, Goldilocks::Element 
         tmp = buffer;
     }
     // TODO: Pre-compute r
-    if (r == NULL)
+    if (r == NULL || rN != N)
     {
+        if (r != NULL)
+        {
+            delete[] r;
+            delete[] r_;
+        }
         computeR(N);
     }
 
